@@ -192,6 +192,10 @@ func (e *Env) tr(x Expr) TV {
 		if g, ok := e.st.ghost[x.Name]; ok {
 			return TV{T: g, Ty: e.u.ghostTy[x.Name]}
 		}
+		if gt, ok := e.u.eng.GlobalGhosts[x.Name]; ok {
+			srt, ty := e.resolveType(gt)
+			return TV{T: e.u.ghostInit(x.Name, srt), Ty: ty}
+		}
 		if e.lookup != nil {
 			if tv, ok := e.lookup(x.Name); ok {
 				return tv
@@ -601,7 +605,7 @@ func (e *Env) trCall(x *ECall) TV {
 		if a.Ty != nil {
 			if m, ok := a.Ty.Underlying().(*types.Map); ok {
 				arr := e.u.heapGet(e.st, mapDomClass(m), ArraySort(SInt, ArraySort(sortOf(m.Key()), SBool)))
-				return TV{T: Select(Select(arr, a.T), k.T), Ty: boolT}
+				return TV{T: And(Not(Eq(a.T, IntLit(0))), Select(Select(arr, a.T), k.T)), Ty: boolT}
 			}
 		}
 		if strings.HasPrefix(string(a.T.Sort), "(Array ") {
@@ -627,6 +631,24 @@ func (e *Env) trCall(x *ECall) TV {
 	case "typeof": // interface dynamic type id
 		need(1)
 		return TV{T: App("ityp", SInt, argOf(0).T), Ty: intT}
+	case "addrOf": // addrOf(p.field): identity of a value-struct field (e.g. an embedded mutex)
+		need(1)
+		fe, ok := x.Args[0].(*EField)
+		if !ok {
+			e.fail("addrOf needs p.field")
+		}
+		base := e.tr(fe.X)
+		st, owner, isPtr := structOf(base.Ty)
+		if st == nil || !isPtr {
+			e.fail("addrOf: %v is not a pointer to a struct", base.Ty)
+		}
+		for i := 0; i < st.NumFields(); i++ {
+			if st.Field(i).Name() == fe.Name {
+				_ = owner
+				return TV{T: e.u.fieldAddrTerm(base.T, st.Field(i).Type(), 1, i), Ty: types.NewPointer(st.Field(i).Type())}
+			}
+		}
+		e.fail("addrOf: no field %s", fe.Name)
 	case "cast": // cast(ifaceValue, "*pkg.T"): the concrete value held by an interface
 		need(2)
 		lit, ok := x.Args[1].(*ELit)
@@ -665,7 +687,7 @@ func (e *Env) trCall(x *ECall) TV {
 		need(1)
 		h, ok := e.st.ghost["$held"]
 		if !ok {
-			h = e.u.heldInit()
+			h = e.u.ghostInit("$held", ArraySort(SInt, SBool))
 		}
 		return TV{T: Select(h, argOf(0).T), Ty: boolT}
 	}
@@ -697,13 +719,13 @@ func (e *Env) trCall(x *ECall) TV {
 	return TV{}
 }
 
-// heldInit returns the initial held-lock set of the unit.
-func (u *Unit) heldInit() Term {
-	if t, ok := u.gens["$held0"]; ok {
+// ghostInit returns the entry value of a global ghost variable of the unit.
+func (u *Unit) ghostInit(name string, srt Sort) Term {
+	if t, ok := u.gens["ghost0:"+name]; ok {
 		return t
 	}
-	t := u.defs.Fresh("held0", ArraySort(SInt, SBool))
-	u.gens["$held0"] = t
+	t := u.defs.Fresh("g0_"+name, srt)
+	u.gens["ghost0:"+name] = t
 	return t
 }
 
